@@ -6,8 +6,10 @@ use crate::cache::cache::{
 };
 use crate::cache::error::{CacheError, Result};
 
+use std::collections::hash_map::DefaultHasher;
+use std::hash::{Hash, Hasher};
 use std::str;
-use std::sync::Arc;
+use std::sync::{Arc, Mutex, MutexGuard};
 
 pub type Record = CacheRecord;
 pub type Meta = CacheMeta;
@@ -34,14 +36,33 @@ pub struct DeltaResult {
  */
 pub struct MemcStore {
     store: Arc<dyn Cache + Send + Sync>,
+    /// striped per key locks: a command that reads an item and then writes it
+    /// back (add, replace, append, prepend, incr, decr) holds the lock of its
+    /// key so that no other mutation of that key can slip in between
+    key_locks: Vec<Mutex<()>>,
 }
+
+const KEY_LOCKS: usize = 1024;
 
 impl MemcStore {
     pub fn new(store: Arc<dyn Cache + Send + Sync>) -> MemcStore {
-        MemcStore { store }
+        MemcStore {
+            store,
+            key_locks: (0..KEY_LOCKS).map(|_| Mutex::new(())).collect(),
+        }
+    }
+
+    fn lock_key(&self, key: &KeyType) -> MutexGuard<'_, ()> {
+        let mut hasher = DefaultHasher::new();
+        key.hash(&mut hasher);
+        let idx = (hasher.finish() as usize) % self.key_locks.len();
+        self.key_locks[idx]
+            .lock()
+            .unwrap_or_else(|poisoned| poisoned.into_inner())
     }
 
     pub fn set(&self, key: KeyType, record: Record) -> Result<SetStatus> {
+        let _guard = self.lock_key(&key);
         self.store.set(key, record)
     }
 
@@ -54,20 +75,23 @@ impl MemcStore {
     // }
 
     pub fn add(&self, key: KeyType, record: Record) -> Result<SetStatus> {
+        let _guard = self.lock_key(&key);
         match self.get(&key) {
             Ok(_record) => Err(CacheError::KeyExists),
-            Err(_err) => self.set(key, record),
+            Err(_err) => self.store.set(key, record),
         }
     }
 
     pub fn replace(&self, key: KeyType, record: Record) -> Result<SetStatus> {
+        let _guard = self.lock_key(&key);
         match self.get(&key) {
-            Ok(_record) => self.set(key, record),
+            Ok(_record) => self.store.set(key, record),
             Err(_err) => Err(CacheError::NotFound),
         }
     }
 
     pub fn append(&self, key: KeyType, new_record: Record) -> Result<SetStatus> {
+        let _guard = self.lock_key(&key);
         match self.get(&key) {
             Ok(mut record) => {
                 record.header.cas = new_record.header.cas;
@@ -76,13 +100,14 @@ impl MemcStore {
                 value.extend_from_slice(&record.value);
                 value.extend_from_slice(&new_record.value);
                 record.value = value.freeze();
-                self.set(key, record)
+                self.store.set(key, record)
             }
             Err(_err) => Err(CacheError::NotFound),
         }
     }
 
     pub fn prepend(&self, key: KeyType, new_record: Record) -> Result<SetStatus> {
+        let _guard = self.lock_key(&key);
         match self.get(&key) {
             Ok(mut record) => {
                 let mut value =
@@ -91,7 +116,7 @@ impl MemcStore {
                 value.extend_from_slice(&record.value);
                 record.value = value.freeze();
                 record.header.cas = new_record.header.cas;
-                self.set(key, record)
+                self.store.set(key, record)
             }
             Err(_err) => Err(CacheError::NotFound),
         }
@@ -122,6 +147,7 @@ impl MemcStore {
         delta: DeltaParam,
         increment: bool,
     ) -> Result<DeltaResult> {
+        let _guard = self.lock_key(&key);
         match self.get(&key) {
             Ok(mut record) => {
                 str::from_utf8(&record.value)
@@ -145,7 +171,7 @@ impl MemcStore {
                         }
                         record.value = Bytes::from(value.to_string());
                         record.header.cas = header.cas;
-                        self.set(key, record).map(|result| DeltaResult {
+                        self.store.set(key, record).map(|result| DeltaResult {
                             cas: result.cas,
                             value,
                         })
@@ -163,7 +189,7 @@ impl MemcStore {
                         0,
                         header.get_expiration(),
                     );
-                    return self.set(key, record).map(|result| DeltaResult {
+                    return self.store.set(key, record).map(|result| DeltaResult {
                         cas: result.cas,
                         value: delta.value,
                     });
@@ -174,6 +200,7 @@ impl MemcStore {
     }
 
     pub fn delete(&self, key: KeyType, header: Meta) -> Result<Record> {
+        let _guard = self.lock_key(&key);
         self.store.delete(key, header)
     }
 
